@@ -65,6 +65,72 @@ func isBounds(err error) bool {
 	return strings.Contains(de.Reason, "out of bounds") || strings.Contains(de.Reason, "out of range") || strings.Contains(de.Reason, "overrun")
 }
 
+// default values handed to the ...Default accessors: a struct {0xD0D0D0D0D0D0D0D0; 1 pointer} and a 3-element UInt16 list
+var defStruct, defList = func() ([]byte, []byte) {
+	m1, s1, _ := capnp.NewMessage(capnp.SingleSegment(nil))
+	r1, _ := capnp.NewRootStruct(s1, capnp.ObjectSize{DataSize: 8, PointerCount: 1})
+	r1.SetUint64(0, 0xD0D0D0D0D0D0D0D0)
+	b1, _ := m1.Marshal()
+	m2, s2, _ := capnp.NewMessage(capnp.SingleSegment(nil))
+	l2, _ := capnp.NewUInt16List(s2, 3)
+	l2.Set(1, 0xD1D1)
+	m2.SetRoot(l2.ToPtr())
+	b2, _ := m2.Marshal()
+	return b1, b2
+}()
+
+// defaults checks the ...Default accessors on a successfully read pointer: a default stands in for a null pointer (and
+// for a pointer of another kind) only; a pointer that is present - a zero-sized struct, an empty list - is the value.
+func (w *Walker) defaults(p capnp.Ptr, kind ref.Kind, lk ref.ListKind, count int, path string) error {
+	isDefStruct := func(s capnp.Struct) bool {
+		return s.IsValid() && s.Message() != p.Message() && s.Size() == (capnp.ObjectSize{DataSize: 8, PointerCount: 1}) && s.Uint64(0) == 0xD0D0D0D0D0D0D0D0
+	}
+	isDefList := func(l capnp.List) bool {
+		return l.IsValid() && l.Message() != p.Message() && l.Len() == 3 && capnp.UInt16List{List: l}.At(1) == 0xD1D1
+	}
+	s, err := p.StructDefault(defStruct)
+	if err != nil {
+		return pbt.Fail("default/struct-error", "%s: StructDefault failed: %v", path, err)
+	}
+	if kind == ref.KStruct {
+		if !s.IsValid() || s.Message() != p.Message() || !capnp.SamePtr(s.ToPtr(), p) || s.Size() != p.Struct().Size() {
+			return pbt.Fail("default/struct-replaces-present-value", "%s: the pointer holds a struct of size %v, but StructDefault returned something else (size %v, same message: %v): a default applies to a null pointer only", path, p.Struct().Size(), s.Size(), s.Message() == p.Message())
+		}
+	} else if !isDefStruct(s) {
+		return pbt.Fail("default/struct-missing", "%s: pointer of kind %v: StructDefault did not return the default", path, kind)
+	}
+	l, err := p.ListDefault(defList)
+	if err != nil {
+		return pbt.Fail("default/list-error", "%s: ListDefault failed: %v", path, err)
+	}
+	if kind == ref.KList {
+		if !l.IsValid() || l.Message() != p.Message() || !capnp.SamePtr(l.ToPtr(), p) || l.Len() != p.List().Len() {
+			return pbt.Fail("default/list-replaces-present-value", "%s: the pointer holds a list of %d elements, but ListDefault returned something else (%d elements)", path, p.List().Len(), l.Len())
+		}
+	} else if !isDefList(l) {
+		return pbt.Fail("default/list-missing", "%s: pointer of kind %v: ListDefault did not return the default", path, kind)
+	}
+	def := []byte("dflt\x00x")
+	d, tx, tb := p.DataDefault(def), p.TextDefault("dflt"), p.TextBytesDefault("dflt")
+	if kind == ref.KList && lk == ref.LB1 {
+		raw := p.Data()
+		if !bytes.Equal(d, raw) || len(d) != count {
+			return pbt.Fail("default/data-replaces-present-value", "%s: byte list of %d elements: DataDefault returned %d bytes %x", path, count, len(d), clip(d))
+		}
+		if count > 0 && raw[count-1] == 0 {
+			if tx != string(raw[:count-1]) || !bytes.Equal(tb, raw[:count-1]) {
+				return pbt.Fail("default/text-replaces-present-value", "%s: NUL-terminated byte list %q: TextDefault returned %q, TextBytesDefault %q", path, clip(raw), tx, clip(tb))
+			}
+		} else if tx != "dflt" || string(tb) != "dflt" {
+			return pbt.Fail("default/text-missing", "%s: byte list without terminator: TextDefault returned %q", path, tx)
+		}
+	} else if !bytes.Equal(d, def) || tx != "dflt" || string(tb) != "dflt" {
+		return pbt.Fail("default/bytes-missing", "%s: pointer of kind %v (list kind %d): DataDefault/TextDefault did not return the defaults (%x, %q, %q)", path, kind, lk, clip(d), tx, clip(tb))
+	}
+	w.Kinds["defaults-checked"]++
+	return nil
+}
+
 // Root walks the whole message from its root pointer.
 func (w *Walker) Root(msg *capnp.Message) error {
 	w.init()
@@ -101,7 +167,7 @@ func (w *Walker) Ptr(p capnp.Ptr, perr error, seg, word, depth int, path string)
 		if rerr == nil && t.Kind != ref.KNull && w.Valid {
 			return pbt.Fail("api-null-for-nonnull", "%s: API returned null, spec says %v", path, t.Kind)
 		}
-		return nil
+		return w.defaults(p, ref.KNull, 0, 0, path)
 	}
 	// API succeeded with a non-null pointer.
 	if rerr != nil {
@@ -116,6 +182,9 @@ func (w *Walker) Ptr(p capnp.Ptr, perr error, seg, word, depth int, path string)
 	w.OK++
 	if depth > w.DeepestOK {
 		w.DeepestOK = depth
+	}
+	if err := w.defaults(p, t.Kind, ref.ListKind(t.PtrWord>>32&7), int(t.PtrWord>>35), path); err != nil {
+		return err
 	}
 	switch t.Kind {
 	case ref.KCap:
